@@ -33,8 +33,10 @@ THEOREMS = ['C15_tokens_of_appended_options', 'C15_keywords_prefix',
             'C15_expansion_card', 'C15_like_expansion_card',
             'C15_expansion_is_override', 'C15_expansion_deck',
             'C15_expansion_groups_complete', 'C15_explicit_card_has_density',
+            'C15_card_text_reads_back',
             'C15_importance_dictionary_linked',
-            'C15_like_importance_zero_iff_linked']
+            'C15_like_importance_zero_iff_linked',
+            'C15_like_skipped_iff_linked']
 TRUSTED = [
     'hand-written models coq/C15/Model.v and coq/C15/Canon.v (tied by '
     'execution: tie:deck, tie:split, tie:canon; sweep:canon-impl hands the '
@@ -61,7 +63,8 @@ ASSUMPTIONS = [
     'FILL arrays: numbers, nR, nI, xM, nJ are modelled; LOG / ILOG are not '
     '(EUnsupported: they need a float power, which neither Base.Scalar nor '
     'the environment record — frozen, C14 builds it positionally — provides); '
-    'array sizes > 0',
+    'array size 0 is outside (the code then deletes every remaining token); '
+    'a negative size is modelled (ParseMCNPCellError)',
     'the card-construction theorems hold where Canon.canon_card is defined: '
     'undefined for a stray number after a keyword that is read, for a '
     'material without a density (C15_explicit_card_has_density: no such '
@@ -110,10 +113,39 @@ def numeric_start(tok):
     return tok[0] in '0123456789.+-'
 
 
+def repo_helper(module, name):
+    '''A helper of the repository that is NOT one of the functions the anchors
+    of C15 name (get_cells, get_ast, normalize_transform, normalize_float ...):
+    where it lives, else the name as imported by ParseMCNPCell.py, else None
+    (the deck is then left out of tie:deck and counted; the sweeps through the
+    public entry points still run).'''
+    import importlib
+    for mod in (module, 't4_geom_convert.Kernel.FileHandlers.Parser.'
+                        'ParseMCNPCell'):
+        try:
+            fun = getattr(importlib.import_module(mod), name, None)
+        except Exception:                      # pylint: disable=broad-except
+            fun = None
+        if fun is not None:
+            return fun
+    return None
+
+
+def repo_to_float():
+    '''datacard.to_float, a helper outside the anchors: when a rewrite moved or
+    renamed it, fall back to the reading it implements (float(), then the
+    Fortran spellings) — the tie through ParseMCNPCell.parse() still decides.'''
+    try:
+        from MIP.mip.datacard import to_float
+        return to_float
+    except Exception:                          # pylint: disable=broad-except
+        return impl.mcnp_float
+
+
 def readings(tok):
     '''(to_float(tok), int(float(tok)), int(to_float(tok))) with the
     repository's to_float; None where the call raises.'''
-    from MIP.mip.datacard import to_float
+    to_float = repo_to_float()
 
     def attempt(fun):
         try:
@@ -145,15 +177,29 @@ class ImplDeck:
     '''Everything observed on the implementation for one deck text.'''
 
     def __init__(self, text, lattice_params=None):
-        from MIP.geom.cells import get_cells
-        from MIP.geom.parsegeom import get_ast
         from MIP.mip import cellcard
         from t4_geom_convert.Kernel.FileHandlers.Parser.ParseMCNPCell import \
             ParseMCNPCell
-        from t4_geom_convert.Kernel.Transformation.Transformation import \
-            normalize_transform
-        from t4_geom_convert.Kernel.Utils import normalize_float
-        from MIP.mip.datacard import to_float
+        # helpers outside the anchors of C15 are looked up tolerantly
+        get_cells = repo_helper('MIP.geom.cells', 'get_cells')
+        get_ast = repo_helper('MIP.geom.parsegeom', 'get_ast')
+        normalize_transform = repo_helper(
+            't4_geom_convert.Kernel.Transformation.Transformation',
+            'normalize_transform')
+        normalize_float = repo_helper('t4_geom_convert.Kernel.Utils',
+                                      'normalize_float')
+        to_float = repo_to_float()
+        self.tie_skip = [name for name, fun in (
+            ('get_ast', get_ast), ('normalize_transform', normalize_transform),
+            ('normalize_float', normalize_float)) if fun is None]
+        if get_cells is None:
+            def get_cells(parser, lim=None):
+                from collections import OrderedDict
+                out = OrderedDict()
+                for card in parser.cards(blocks='c', skipcomments=True):
+                    name, mat, geom, opts = card.parts()
+                    out[int(name)] = (mat, geom, opts)
+                return out
         self.text = text
         self.lattice_params = lattice_params or {}
         self.setup_error = None
@@ -174,9 +220,18 @@ class ImplDeck:
                 self.setup_error = exc
                 self.result = ('err', exc_class(exc), repr(exc)[:200])
                 return
-            self.importances = list(pcell.importances)
-            self.transforms = {k: list(v[:12])
-                               for k, v in pcell.transforms.items()}
+            # instance attributes set by __init__; recomputed through the
+            # public functions when a rewrite renamed them
+            imps = getattr(pcell, 'importances', None)
+            if imps is None:
+                imps = pcell.parse_importance_cards()
+            trs = getattr(pcell, 'transforms', None)
+            if trs is None:
+                from t4_geom_convert.Kernel.Transformation.Transformation \
+                    import get_mcnp_transforms
+                trs = get_mcnp_transforms(parser)
+            self.importances = list(imps)
+            self.transforms = {k: list(v[:12]) for k, v in trs.items()}
             import contextlib
             import io
             try:
@@ -195,7 +250,7 @@ class ImplDeck:
                 continue
             if geom not in AST_CACHE:
                 try:
-                    AST_CACHE[geom] = repr(get_ast(geom))
+                    AST_CACHE[geom] = repr(get_ast(geom)) if get_ast else None
                 except Exception:              # pylint: disable=broad-except
                     AST_CACHE[geom] = None
             self.ast[geom] = AST_CACHE[geom]
@@ -238,11 +293,14 @@ class ImplDeck:
             if r is not None:
                 self.num[tok] = r
             try:
-                self.nf[tok] = normalize_float(tok)
+                if normalize_float is not None:
+                    self.nf[tok] = normalize_float(tok)
             except Exception:                  # pylint: disable=broad-except
                 pass
         self.norm = []
         seen_keys = set()
+        if normalize_transform is None:
+            return
         try:
             self.norm.append(([], ('ok', [float(v) for v in
                                           normalize_transform([])])))
@@ -311,12 +369,15 @@ def coq_bounds(bounds):
     return clist(cpair(cz(lo), cz(hi)) for lo, hi in bounds)
 
 
+def is_lattice_spec(fid):
+    return hasattr(fid, 'bounds') and hasattr(fid, 'spec')
+
+
 def coq_cell(cell):
-    from t4_geom_convert.Kernel.Volume.Lattice import LatticeSpec
     fid = cell.fillid
     if fid is None:
         fill = 'None'
-    elif isinstance(fid, LatticeSpec):
+    elif is_lattice_spec(fid):
         fill = (f'(Some (FillLat {coq_bounds(list(fid.bounds))} '
                 f'{clist(copt(u, cz) for u in fid.spec)}))')
     else:
@@ -358,9 +419,8 @@ def coq_case(obs):
 
 
 def cell_fields(cell):
-    from t4_geom_convert.Kernel.Volume.Lattice import LatticeSpec
     fid = cell.fillid
-    if isinstance(fid, LatticeSpec):
+    if is_lattice_spec(fid):
         fid = ('lat', list(fid.bounds), list(fid.spec))
     return {'material': cell.materialID, 'density': cell.density,
             'geometry': repr(cell.geometry), 'importance': cell.importance,
@@ -617,7 +677,10 @@ def gen_edge_deck(rng, base_deck, index=None):
 
 
 def edge_lattice_params(rng, deck):
-    from t4_geom_convert.Kernel.Volume.Lattice import parse_ranges
+    parse_ranges = repo_helper('t4_geom_convert.Kernel.Volume.Lattice',
+                               'parse_ranges')
+    if parse_ranges is None:       # not an anchor of C15: no --lattice cases
+        return {}
     params = {}
     for cell in deck['cells']:
         raw = str(cell.get('but', {}).get('raw', '')).lower()
@@ -705,6 +768,22 @@ CORPUS_FULL = [
      'corpus\n1 1 -1.0 -1 imp:n=1\n2 1 -2.50 -1 imp:n=1 trcl=(5 0 0)\n'
      '3 3 7.80-1 -1 imp:n=1 trcl=(0 5 0)\n'
      '4 0 #1 #2 #3 -9 imp:n=1\n5 0 9 imp:n=0\n' + _FTAIL),
+    ('importance overridden with another grouping of the particles: IMP:N,P '
+     'over IMP:N + IMP:P and IMP:P,N over IMP:N,P (seeded C15_E)',
+     'corpus\n1 1 -1.0 -1 imp:n=1 imp:p=1\n2 like 1 but imp:n,p=0 trcl=(5 0 0)\n'
+     '3 2 -2.0 -2 imp:n,p=1\n6 like 3 but imp:p,n=0 trcl=(5 0 0)\n'
+     '7 like 3 but imp:p=0 trcl=(-5 0 0)\n'
+     '4 0 #1 #2 #3 #6 #7 -9 imp:n=1\n5 0 9 imp:n=0\n' + _FTAIL,
+     'corpus\n1 1 -1.0 -1 imp:n=1 imp:p=1\n2 1 -1.0 -1 imp:n=0 imp:p=0 trcl=(5 0 0)\n'
+     '3 2 -2.0 -2 imp:n,p=1\n6 2 -2.0 -2 imp:n=0 imp:p=0 trcl=(5 0 0)\n'
+     '7 2 -2.0 -2 imp:n=1 imp:p=0 trcl=(-5 0 0)\n'
+     '4 0 #1 #2 #3 #6 #7 -9 imp:n=1\n5 0 9 imp:n=0\n' + _FTAIL),
+    ('the same cell numbers as the other corpus decks with another geometry '
+     '(seeded C15_F: nothing may survive from one conversion to the next)',
+     'corpus\n1 1 -1.0 -2 imp:n=1\n2 like 1 but trcl=(5 0 0)\n3 like 2 but trcl=(-5 0 0) mat=2 rho=-2.0\n'
+     '4 0 #1 #2 #3 -9 imp:n=1\n5 0 9 imp:n=0\n' + _FTAIL,
+     'corpus\n1 1 -1.0 -2 imp:n=1\n2 1 -1.0 -2 imp:n=1 trcl=(5 0 0)\n3 2 -2.0 -2 imp:n=1 trcl=(-5 0 0)\n'
+     '4 0 #1 #2 #3 -9 imp:n=1\n5 0 9 imp:n=0\n' + _FTAIL),
     ('the same keyword overridden at two levels of a chain (seeded C15_C)',
      'corpus\n1 1 -1.0 -1 imp:n=1 u=0\n2 like 1 but mat=2 rho=-2.0 trcl=(5 0 0) imp:n=2\n'
      '3 like 2 but mat=3 rho=-3.0 trcl=(0 5 0) imp:n=4\n'
@@ -742,27 +821,40 @@ def corpus_failures():
 def run(res, tier, seed, proofs_ok):
     '''Ties and sweeps under a line-coverage tracer restricted to the anchored
     functions: every reachable line must be executed by the tied calls.'''
-    import c15_cov
     global COV
-    cov = COV = c15_cov.LineCov(c15_cov.anchored_functions())
+    cov = None
+    try:
+        import c15_cov
+        cov = COV = c15_cov.LineCov(c15_cov.anchored_functions())
+    except Exception as exc:                   # pylint: disable=broad-except
+        COV = None                             # coverage is information only
+        res.extra['line_coverage_error'] = repr(exc)[:200]
     try:
         _run(res, tier, seed, proofs_ok)
     finally:
         COV = None
-    total, missing = cov.missing(c15_cov.UNREACHABLE)
-    res.obligation('coverage: the tied calls (cellcard.split, '
-                   'ParseMCNPCell.parse) execute every reachable line of the '
-                   f'anchored functions ({total} lines of {len(cov.codes)} code '
-                   'objects)', not missing, f'never executed: {missing[:6]}')
-    res.extra['anchored_lines'] = total
-    if missing:
-        res.violation('harness-error',
-                      'generated inputs no longer reach these lines of the '
-                      'anchored code (strengthen the generators): '
-                      f'{missing[:8]}',
-                      {'theorem_or_correspondence': 'coverage',
-                       'input': {'lines': [list(m) for m in missing[:30]]}},
-                      found_input=False)
+    if cov is None:
+        return
+    try:
+        total, missing = cov.missing(c15_cov.UNREACHABLE)
+        res.obligation('coverage: the tied calls (cellcard.split, '
+                       'ParseMCNPCell.parse) execute every reachable line of '
+                       f'the anchored functions ({total} lines of '
+                       f'{len(cov.codes)} code objects)', not missing,
+                       f'never executed: {missing[:6]}')
+        res.extra['anchored_lines'] = total
+        res.extra['anchored_names_missing'] = list(c15_cov.MISSING)
+        if missing:
+            res.violation('harness-error',
+                          'generated inputs no longer reach these lines of '
+                          'the anchored code (strengthen the generators): '
+                          f'{missing[:8]}',
+                          {'theorem_or_correspondence': 'coverage',
+                           'input': {'lines': [list(m) for m in
+                                               missing[:30]]}},
+                          found_input=False)
+    except Exception as exc:                   # pylint: disable=broad-except
+        res.extra['line_coverage_error'] = repr(exc)[:200]
 
 
 def _run(res, tier, seed, proofs_ok):
@@ -846,7 +938,10 @@ def _run(res, tier, seed, proofs_ok):
                           {'input': {'deck': text,
                                      'expanded': gen.render(gen.expand(deck))},
                            'oracle': kind}, cls=cls, found_input=True)
-        if obs.setup_error is None:
+        if obs.setup_error is None and getattr(obs, 'tie_skip', None):
+            res.count('tie-skipped:helper ' + ','.join(obs.tie_skip)
+                      + ' not present')
+        elif obs.setup_error is None:
             cases.append(coq_case(obs))
             meta.append((text, obs))
             for content, parts in obs.cards:
@@ -871,6 +966,10 @@ def _run(res, tier, seed, proofs_ok):
             continue
         res.count('edge-result:' + (obs.result[1] if obs.result[0] == 'err'
                                     else 'ok'))
+        if getattr(obs, 'tie_skip', None):
+            res.count('tie-skipped:helper ' + ','.join(obs.tie_skip)
+                      + ' not present')
+            continue
         cases.append(coq_case(obs))
         meta.append((text, obs))
         for content, parts in obs.cards:
